@@ -19,10 +19,10 @@ type GenOpts struct {
 	OnlyKinds            []int // restrict group kinds
 }
 
-func p32(v int32) *int32 { return &v }
-func p64(v int64) *int64 { return &v }
+func p32(v int32) *int32    { return &v }
+func p64(v int64) *int64    { return &v }
 func pstr(s string) *string { return &s }
-func pbool(b bool) *bool { return &b }
+func pbool(b bool) *bool    { return &b }
 
 // idCounter hands out ids that are unique within a file so that a swapped or duplicated
 // element is always visible.
